@@ -145,6 +145,27 @@ def modp(case, ctx):
     else:
         ctx.check(ret == 1 and from_mont_p(rr) in (root, p - root) and rr < p,
                   "modp_mont_sqrt(%x) ret=%d r=%x" % (a, ret, rr), "modp/sqrt")
+    # the same functions with the result written over the operand (r == a), the way the point formulas and the decompression call them
+    def inplace(fn, *rest):
+        ba = z_in(a)
+        ret = fn(ba, ba, *[z_in(v) for v in rest])
+        return z_get(ba), ret
+    for name, fn, rest, exp in (("modp_add", l.sm2_z256_modp_add, (b,), (a + b) % p), ("modp_sub", l.sm2_z256_modp_sub, (b,), (a - b) % p),
+                                ("modp_dbl", l.sm2_z256_modp_dbl, (), 2 * a % p), ("modp_tri", l.sm2_z256_modp_tri, (), 3 * a % p),
+                                ("modp_neg", l.sm2_z256_modp_neg, (), (-a) % p), ("modp_haf", l.sm2_z256_modp_haf, (), a * pow(2, -1, p) % p),
+                                ("modp_from_mont", l.sm2_z256_modp_from_mont, (), a * pow(R, -1, p) % p),
+                                ("modp_mont_sqr", l.sm2_z256_modp_mont_sqr, (), a * a * pow(R, -1, p) % p),
+                                ("modp_mont_exp", l.sm2_z256_modp_mont_exp, (e,), to_mont_p(pow(av, e, p)))):
+        got, _ = inplace(fn, *rest)
+        ctx.check(got == exp, "sm2_z256_%s in place (r == a) for a=%x: got %x expected %x" % (name, a, got, exp), "modp/inplace/" + name)
+    if a != 0:
+        got, _ = inplace(l.sm2_z256_modp_mont_inv)
+        ctx.check(got == to_mont_p(pow(av, -1, p)), "sm2_z256_modp_mont_inv in place for a=%x" % a, "modp/inplace/modp_mont_inv")
+    got, ret = inplace(l.sm2_z256_modp_mont_sqrt)
+    if root is None:
+        ctx.check(ret == 0, "modp_mont_sqrt in place (r == a) returned %d for the non-residue %x" % (ret, a), "modp/inplace/sqrt")
+    else:
+        ctx.check(ret == 1 and from_mont_p(got) in (root, p - root), "modp_mont_sqrt in place (r == a) for %x: ret=%d r=%x" % (a, ret, got), "modp/inplace/sqrt")
     # squares always have roots
     sq = to_mont_p(from_mont_p(b) ** 2 % p)
     rr, ret = call_rab(l.sm2_z256_modp_mont_sqrt, sq)
